@@ -161,6 +161,10 @@ func Run(cfg hx.Config) error {
 	if !r.Stop() {
 		runPipelines(r, rnd, cfg)
 	}
+	if !r.Stop() {
+		r.Op("reset", "ok", false)
+		runManager(r, rnd, cfg)
+	}
 	return nil
 }
 
